@@ -11,9 +11,11 @@
                                 with a letter or underscore — literal opacity (shared with C09)
    * `match_replaced`         : a whole-word occurrence not preceded by an earlier match is replaced
                                 by the value, and the scan resumes after it
-   * witnesses of the deviations from C at the edges (stated, not hidden):
-     `later_macro_not_rescanned_witness` (a body naming a macro defined later is not expanded again),
-     `dash_D_value_not_expanded_witness` (`-DA=7 -DB=A` leaves `A`),
+   * `later_macro_rescanned_witness`, `dash_D_value_expanded_witness`, `uncovered_macro_expanded_witness`: since
+     the repair of `replace_all` (every pass looks for macros in the line as it is then) a body naming a macro
+     defined later, a -D value naming a macro and a macro name handed over as an argument expand as in C (they
+     were recorded deviations before)
+   * witnesses of the deviations from C that remain (stated, not hidden):
      `param_shadow_witness` (`#define x 5` then `#define F(x) x+1`: F(2) gives 5+1),
      `undef_after_definition_witness` (bodies are expanded at definition time)
   Not proved: positional substitution of function-like macro arguments (nested parentheses, nested
@@ -170,14 +172,21 @@ def outText : Outcome → Option String
   | .ok out _ _ => some (String.ofList out)
   | _ => none
 
-/-- a body naming a macro that is defined later is not expanded again at the use site -/
-theorem later_macro_not_rescanned_witness :
-    outText (process [] "m.c" [] "#define A B\n#define B 1\nA\n".toList) = some "B\n" := by decide +kernel
+/-- a body naming a macro that is defined later IS expanded at the use site: every pass of the substitution looks
+    for macros in the line as it is then (before the repair of `replace_all` the applicable macros were determined
+    on the original line once, and this gave `B`) -/
+theorem later_macro_rescanned_witness :
+    outText (process [] "m.c" [] "#define A B\n#define B 1\nA\n".toList) = some "1\n" := by decide +kernel
 
-/-- `-DA=7 -DB=A`: the value of B is not expanded (a `#define B A` after `#define A 7` would give 7) -/
-theorem dash_D_value_not_expanded_witness :
-    outText (process [] "m.c" [("A".toList, "7".toList), ("B".toList, "A".toList)] "B\n".toList) = some "A\n" ∧
+/-- `-DA=7 -DB=A`: the value of B is expanded at the use site, like the `#define B A` after `#define A 7` -/
+theorem dash_D_value_expanded_witness :
+    outText (process [] "m.c" [("A".toList, "7".toList), ("B".toList, "A".toList)] "B\n".toList) = some "7\n" ∧
     outText (process [] "m.c" [] "#define A 7\n#define B A\nB\n".toList) = some "7\n" := by decide +kernel
+
+/-- a macro name that only appears once another macro has been expanded (here: handed over as an argument) is
+    expanded as well -/
+theorem uncovered_macro_expanded_witness :
+    outText (process [] "m.c" [] "#define twice(a) (a)*2\n#define CALL(f) f(1)\nCALL(twice)\n".toList) = some "(1)*2\n" := by decide +kernel
 
 /-- a parameter named like an earlier macro is replaced by that macro's value in the body -/
 theorem param_shadow_witness :
